@@ -405,6 +405,20 @@ def run_group(rec, rng, case, do_membership=True, do_zip=True):
             sub = dict(case, layouts=[all_json[li]])
             if reuse:
                 sub["prev_layouts"] = all_json[:li]
+            if case.get("sibling_copy") and fs is not None:
+                # object history across two objects: a copy is re-configured (as move() / map(output=...)
+                # do with their copies), the original is searched afterwards
+                try:
+                    sib = fs.copy()
+                    if layout.with_sat:
+                        sib.set_placeholders(sat="zz[0-9]")
+                    sib.path = root.rstrip("/") + "/elsewhere/{year}/{month}/x_{day}{hour}{minute}{second}.bin"
+                    list(sib.find(dt.datetime(2016, 1, 1), dt.datetime(2016, 1, 2), no_files_error=False))
+                    rec.count("find.with_reconfigured_copy")
+                except Exception as exc:
+                    rec.violation("find-exception", sub, {"where": "copy() of the fileset re-configured",
+                                                          "exception": repr(exc),
+                                                          "trace": traceback.format_exc()[-1200:]})
             # population history: files (whole new directories among them) that arrive while the object
             # is in use are held back outside the tree and moved in after the first queries
             late = {p for p, f in reg.items() if f["id"] in set(case.get("late_ids", []))}
@@ -554,6 +568,10 @@ def gen_group(rng):
     case = make_case(layouts, files, names_idx, periods, queries)
     if len(layouts) > 1 and not names_idx and rng.random() < 0.5:
         case["reuse_object"] = True  # one FileSet object, its path reassigned from layout to layout
+    if rng.random() < 0.3:
+        case["sibling_copy"] = True
+    if case.get("reuse_object"):
+        pass
     elif len(layouts) == 1 and len(files) >= 2 and len(queries) >= 4 and rng.random() < 0.3:
         case["late_ids"] = sorted(f["id"] for f in rng.sample(files, rng.randrange(1, len(files))))
         case["late_after"] = rng.randrange(1, len(queries) - 1)
